@@ -234,7 +234,7 @@ func (i UInt64) ExponentiateUInt64(other UInt64) UInt64 {
 	}
 	result := i
 	var j UInt64
-	for j = 2; j <= other; j++ {
+	for j = other; j > 1; j-- {
 		result *= i
 	}
 	return result
